@@ -341,6 +341,7 @@ def run_world(scn):
                 import traceback
                 outcome = "exception"
                 exc = "%s: %s | %s" % (type(e).__name__, str(e)[:200], traceback.format_exc().strip().split("\n")[-3].strip()[:160])
+            S.check_budget()
             ev = list(S.EV)
             after = read_values(root, spaths)
             rsets, uncon, bounds, btors, draws = S.split_events(ev)
